@@ -662,8 +662,10 @@ func (c S3ApiController) GetActions(ctx *fiber.Ctx) error {
 		})
 	}
 
+	// the backend decides whether the requested range is honored: it is
+	// a partial response only when it reports the returned content range
 	status := http.StatusOK
-	if acceptRange != "" {
+	if getstring(res.ContentRange) != "" {
 		status = http.StatusPartialContent
 	}
 
